@@ -3,6 +3,8 @@ package main
 import (
 	"fmt"
 	"go/token"
+	"os"
+	"time"
 	"go/types"
 	"strings"
 
@@ -82,6 +84,18 @@ func (e *Engine) call(st *State, f *Frame, x ssa.Value, c *ssa.CallCommon, inDef
 	for _, a := range c.Args {
 		args = append(args, e.get(st, f, a))
 	}
+	if bi, ok := fnv.(*ssa.Builtin); ok {
+		switch bi.Name() {
+		case "append", "copy", "delete", "clear":
+			for i, a := range args {
+				if u, ok := a.(Union); ok {
+					if _, isConst := c.Args[i].(*ssa.Const); !isConst {
+						return actAgain, e.splitOn(st, f, c.Args[i], u)
+					}
+				}
+			}
+		}
+	}
 	return e.invokeValue(st, f, x, fnv, args, c.Pos(), inDefer)
 }
 
@@ -154,6 +168,9 @@ func (e *Engine) callFunc(st *State, f *Frame, x ssa.Value, fv FuncV, args []Val
 		if act == actAgain {
 			return actAgain, sp
 		}
+		if act == actMoved {
+			return actMoved, sp // a replacement function was entered
+		}
 		if x != nil && r != nil {
 			e.bindResult(f, x, nil, r)
 		}
@@ -172,6 +189,40 @@ func (e *Engine) callFunc(st *State, f *Frame, x ssa.Value, fv FuncV, args []Val
 			return actAgain, nil
 		}
 		return actNext, nil
+	}
+	// recursion: a call to a function already on the stack is only followed if the path is feasible
+	if !e.inInit {
+		rec := 0
+		for _, fr := range st.frames {
+			if fr.fn == callee {
+				rec++
+			}
+		}
+		if rec >= 1 {
+			pcT := e.conj(st.pc)
+			if pcT.IsFalse() {
+				st.frames = nil
+				return actDead, nil
+			}
+			if !pcT.IsTrue() && rec >= 2 {
+				s2 := NewSolver(8000)
+				q := s2.Check(e.b, []*Term{pcT}, "recursion-feasibility")
+				e.feasQueries++
+				if os.Getenv("GOSMT_PROGRESS") != "" {
+					fmt.Fprintf(os.Stderr, "recursion feasibility %s depth=%d: %s %.1fs nodes=%d\n", callee.Name(), rec, q.Status, q.Secs, q.Nodes)
+				}
+				e.solver.Time += time.Duration(q.Secs * float64(time.Second))
+				if q.Status == "unsat" {
+					st.frames = nil
+					return actDead, nil
+				}
+			}
+			if rec >= e.recursionBound() {
+				e.newObl(oblUnwind, st, nil, fmt.Sprintf("recursion bound %d exceeded", e.recursionBound()), callee.String())
+				st.frames = nil
+				return actDead, nil
+			}
+		}
 	}
 	if len(st.frames) > 200 {
 		e.poisonPath(st, "call depth > 200 (recursion?) at "+full)
@@ -496,6 +547,10 @@ func (e *Engine) doAppend(st *State, f *Frame, args []Val, x ssa.Value, pos toke
 func (e *Engine) growAppend(st *State, dst, src SliceV) Val {
 	b := e.b
 	nd, ns := e.maxLen(dst), e.maxLen(src)
+	if os.Getenv("GOSMT_DEBUG_APPEND") != "" {
+		l, h, ok := e.termRange(dst.len, 0)
+		fmt.Fprintf(os.Stderr, "growAppend: dst phys=%d off=%v nd=%d ns=%d lenrange=%d..%d ok=%v lenop=%v\n", dst.n, dst.off.IsConst(), nd, ns, l, h, ok, dst.len.op)
+	}
 	// capacity: concrete; Go's exact growth policy is implementation-defined
 	newCap := 2*nd + ns
 	if newCap < nd+ns {
@@ -733,4 +788,13 @@ func hasPrefixAny(s string, ps ...string) bool {
 		}
 	}
 	return false
+}
+
+func (e *Engine) recursionBound() int {
+	if e.cfg != nil {
+		if n, ok := e.cfg.Unwind["recursion"]; ok {
+			return n
+		}
+	}
+	return 4
 }
